@@ -198,3 +198,226 @@ entry("C14", modules=["contracts.c14_bp"],
                    "without check_zero every value is non-zero (log10 defined)"],
       EXPLANATION="E1 (polar domain): combine_local_contractions returns (m0*10^e0*prod x_i^p_i)^power for all numbers "
                   "of values, in both return forms, and returns zero iff check_zero and some value is zero.")
+
+_C15 = "quimb/core.py"
+_C15O = "quimb/gen/operators.py"
+entry("C15", modules=["contracts.c15_kron"],
+      E1=[f"{_C15}::dynal", f"{_C15}::gen_matching_dynal", f"{_C15}::gen_ops_maybe_sliced", f"{_C15}::kron",
+          f"{_C15}::_dim_map_1d", f"{_C15}::_dim_map_1dtrim", f"{_C15}::_dim_map_1dcyclic", f"{_C15}::_dim_map_2d",
+          f"{_C15}::_dim_map_2dtrim", f"{_C15}::_dim_map_2dcyclic", f"{_C15}::_dim_map_nd", f"{_C15}::dim_map",
+          f"{_C15}::_dim_compressor", f"{_C15}::dim_compress", f"{_C15}::ikron.gen_ops",
+          "quimb/calc.py::partial_transpose", f"{_C15O}::ham_heis.gen_term", f"{_C15O}::ham_heis",
+          f"{_C15O}::ham_ising", f"{_C15O}::ham_XY", f"{_C15O}::ham_XXZ"],
+      LEMMAS=True,
+      PROVIDERS=["contracts.c15_kron.provider_leaf_model"],
+      TRUSTED=["leaf: _kron_core(*factors) is the right-nested Kronecker product of its factors, i.e. row s of the product "
+               "of row windows [lo_i, hi_i) is the tensor product of rows lo_i + t_i with (t_i) the mixed-radix digits of s "
+               "w.r.t. the window sizes (definition of the Kronecker product: row r of A(x)B is (r div rows_B, r mod "
+               "rows_B)); the leaf is sp.kron / numba kron_dense (C16 carrier); checked against numpy's kron on the "
+               "complete grid K<=3, rows<=3 (thorough: 4), every row window, dense and csr, by the fdx provider "
+               "(exhaustive over the stated finite grid, not proved)",
+               "encoding: numpy / scipy row slicing X[lo:hi, :] follows python slice semantics (negative bounds count from "
+               "the end, bounds are clipped, None = end); for factor slicing the side condition 0 <= lo <= hi <= rows is "
+               "an obligation (enc); the model is compared with python, numpy and scipy slicing for every length <= 6 "
+               "and every bound in [-R-2, R+2] or None by the fdx provider",
+               "encoding: a generator is identified with the sequence of values it yields (the generators under contract "
+               "have no side effects, so lazy and eager evaluation agree); generator expressions are evaluated eagerly",
+               "solver: products of symbolic dimensions are non-linear integer terms decided by z3's non-linear arithmetic "
+               "(no product axioms assumed); the ghost digits of the skolem row in kron's post-condition are introduced by "
+               "their defining euclidean divisions (existence and uniqueness of quotient and remainder for a positive "
+               "divisor)",
+               "leaf: int2tup keeps membership (int -> 1-tuple); _find_shape_of_nested_int_array returns the shape of the "
+               "nested sequence; spin_operator / eye / kron / ikron inside ham_heis are uninterpreted term constructors "
+               "(the operator algebra is bounded, E3); sp.isspmatrix_coo / issparse / .tocsr / .tocoo / .asformat only "
+               "change the format label; scipy coo matrices are not subscriptable and numpy arrays have no .tocsr "
+               "(modelled as TypeError / AttributeError)",
+               "induction principle for the loop of partial_transpose (invariant proved for an arbitrary iteration) and "
+               "the skolem-axis argument (a statement proved for an arbitrary fixed axis j holds for all axes)"],
+      ASSUMPTIONS=["STRUCTURE BOUND (value-unbounded): the number of subsystems / factors K is fixed per case and all "
+                   "dimensions, indices, row numbers and coordinates are symbolic integers: dynal, gen_matching_dynal "
+                   "K<=4; gen_ops_maybe_sliced, kron (ownership arithmetic) K<=3; _dim_compressor / dim_compress K<=5 with "
+                   "every subset of marked positions; ikron.gen_ops K<=4 with every placement plan; _dim_map_1d/2d(+trim, "
+                   "cyclic) M<=3 coordinates; _dim_map_nd K<=3 extents, M<=3 (K=3: M<=2) coordinates, 4 flag combinations; "
+                   "dim_map K<=3, M=2.  Larger K / M: bounded run-time contracts only.  partial_transpose and the ham_heis "
+                   "coverage are for ALL n (symbolic)",
+                   "dimensions / extents >= 1 throughout; kron: 0 <= ri < rf is the property's domain, the range check "
+                   "against D is the code's (ValueError allowed exactly when ri < 0 or rf > D); stype / coo_build / "
+                   "parallel: (None|'csr', False, False); kron factors all dense / all coo for K<=2, all csr for K<=3 (the "
+                   "routes differ only in format conversions); gen_ops_maybe_sliced also with alternating coo/csr",
+                   "_dim_compressor is proved for dims >= 2; with a subsystem of dimension 1 (cases dims>=1, K<=2) the same "
+                   "post-condition FAILS on the unchanged tree (finding C15-b); dim_compress is therefore stated for "
+                   "dims >= 2 (it inherits the defect through its helper); autoplace markers (dims < 0) are excluded",
+                   "ikron.gen_ops: the placement plan (block k = positions s_k..e_k, first and last in inds) satisfies the "
+                   "overlay condition size(op_k) = prod dims[s_k..e_k], the first dimension of a multi-site block is >= 2 and "
+                   "no named interior position already reaches size(op_k); dims of -1 (autoplace) excluded; the body of "
+                   "ikron outside gen_ops (argument normalisation, zip/sorted/cycle of operators) is NOT under contract",
+                   "dim_map: dims is a nested sequence (the ndarray kind differs only in how shape / ndim are read); "
+                   "1-d lattice with cyclic=True and trim=True FAILS on the unchanged tree (TypeError, finding C15-f)",
+                   "ham_heis: n >= 2; j and b scalar or triple; parallel in {False, True, None}; the closing bond of a "
+                   "cyclic chain is the ordered pair (n-1, 0), so a cyclic 2-chain counts its bond twice; what ikron / "
+                   "kron / spin_operator compute is bounded (E3); ham_j1j2, ham_mbl, ham_heis_2D (numpy fancy indexing): "
+                   "bounded only"],
+      BOUNDED_FOR={"_dim_compressor": ["dim_compress"], "dim_compress": ["dim_compress"], "dim_map": ["dim_map"],
+                   "kron": ["kron"], "gen_ops": ["ikron"], "partial_transpose": ["partial_transpose"],
+                   "ham_heis": ["ham_heis"], "gen_term": ["ham_heis"]},
+      EXPLANATION="E1 (structure-bounded, value-unbounded; non-linear integer arithmetic): dynal yields the mixed-radix "
+                  "digits (ranges + weighted sum = x); gen_matching_dynal yields exactly the leading digits of ri and rf up "
+                  "to the first difference (ordered when ri <= rf); gen_ops_maybe_sliced cuts factor i to rows [d1,d2+1); "
+                  "kron(..., ownership=(ri,rf)): ri_got <= ri < rf <= rf_got, the windows lie inside the factors, the result "
+                  "has rf-ri rows and, for an arbitrary row s, the row of the full product it equals (row arithmetic of the "
+                  "Kronecker product) is ri+s -- for every 0 <= ri < rf <= D, every factor size; the range check raises "
+                  "only outside [0,D]; coo operands are converted before slicing.  _dim_map_*: flat index = row-major "
+                  "stride formula, cyclic wraps mod the extent, trim drops exactly the out-of-range coordinates, otherwise "
+                  "out-of-range raises; dim_map dispatches (table read from the source) to the right helper and flattens "
+                  "dims K-1 times.  _dim_compressor / dim_compress: blocks = maximal runs of equally marked positions with "
+                  "the product of their dims, flags alternate, product preserved.  ikron.gen_ops: identity / operator "
+                  "blocks tile the dimension list as planned.  partial_transpose: for ALL n the transpose sends ket axis j "
+                  "to j+n and bra axis j+n to j exactly for j in sysa.  ham_heis: gen_term's three kinds of term, the range "
+                  "terms_needed and the two-site term (field on its first site) + six coverage lemmas: every bond its "
+                  "interaction once, closing bond iff cyclic, every site its field once, for ALL n.  fdx provider: the "
+                  "abstract models of the trusted leaves (_kron_core rows, slicing) against the real code, exhaustive over "
+                  "the stated finite grid.")
+
+
+_C19 = "quimb/operator/configcore.py"
+entry("C19", modules=["contracts.c19_ranking"],
+      E1=[f"{_C19}::{_f}" for _f in (
+          "flatconfig_to_rank_nosymm", "rank_into_flatconfig_nosymm", "rank_to_flatconfig_nosymm",
+          "calculate_strides", "flatconfig_to_rank_mixed_radix_nosymm", "rank_into_flatconfig_mixed_radix_nosymm",
+          "rank_to_flatconfig_mixed_radix_nosymm",
+          "flatconfig_to_rank_z2", "rank_into_flatconfig_z2", "rank_to_flatconfig_z2",
+          "build_pascal_table", "flatconfig_to_rank_u1_pascal", "rank_into_flatconfig_u1_pascal",
+          "rank_to_flatconfig_u1_pascal",
+          "flatconfig_to_rank_u1u1_pascal", "rank_into_flatconfig_u1u1_pascal", "rank_to_flatconfig_u1u1_pascal",
+          "_check_next_coupled_term")],
+      LEMMAS=True,
+      PROVIDERS=["contracts.c19_ranking.provider_fdx"],
+      TRUSTED=["induction over the naturals: every inductive lemma of C19 is discharged as a base / step (/ conclusion) "
+               "pair; the induction principle that joins them is not mechanised",
+               "forall-introduction over the skolem index g!skolem: the unranking kernels are proved at one arbitrary, "
+               "unconstrained index, which stands for every index",
+               "composition of the kernel contracts with the lemmas into the bijection statement (rank o unrank = id on "
+               "[0,size), unrank o rank = id on the sector, ranks in [0,size), size = 2^n / 2^(n-1) / C(n,k) / "
+               "C(na,ka)*C(nb,kb) / prod sizes) is a paper argument over proved pieces (stated in the module docstring "
+               "and next to each lemma group)",
+               "fdx reference: the thirteen 2x2 matrices of contracts.c19_ranking.textbook_mats (written from the textbook "
+               "conventions documented in SparseOperatorBuilder.add_term, not read from quimb) and numpy's 2x2 products"],
+      ASSUMPTIONS=["njit kernels: decorators dropped, ints mathematical; overflow side conditions emitted where shifts are "
+                   "used: n <= 62 is a precondition of the binary kernels (nosymm / z2), every `(r << 1) | x` is shown "
+                   "<= 2^63-1 and `1 << (n-2)` has 0 <= n-2 <= 62; binomials / mixed-radix products are NOT bounded (C(n,k) "
+                   "< 2^63 needs n <= 66)",
+                   "bit operations are encoded arithmetically, each with a proved `enc` side condition: r<<1 = 2r (r>=0), "
+                   "r>>1 = r div 2 (r>=0), r&1 = r mod 2 (r>=0), a|b = a+b (a even, b a bit), a^b = (a+b) mod 2 (bits), "
+                   "1<<e = pow2(e) (e>=0)",
+                   "ASSUMED encoding of and-with-a-power-of-two in rank_into_flatconfig_z2: for r >= 0 and m = 2^e (e >= 0, "
+                   "proved: m == pow2(n-2-i) in iteration i), r & m = m if (r >> e) is odd else 0",
+                   "spec functions are uninterpreted; only ground instances of their defining equations are assumed (val, "
+                   "sh, pow2, par, PB, C [C(n,0)=1, C(0,k)=0 for k>=1, Pascal's rule], R/KR, UR/UK, ST, S, H, SO, Touched); "
+                   "instances of proved lemmas are assumed where a comment names the lemma",
+                   "array predicates IsBits / IsPascal / TermOK are opaque in the code proofs and used through instances of "
+                   "their definitions at the indices read (bits-subrange / bits-shift are proved from the unfolded "
+                   "definitions); build_pascal_table proves the unfolded (quantified) table property",
+                   "rank_into_flatconfig_z2 / rank_to_flatconfig_z2 require n >= 2: `1 << (n - 2)` is a negative shift "
+                   "otherwise; flatconfig_to_rank_u1_pascal requires a bit string of weight exactly k (else pt is indexed "
+                   "out of range); rank_into_flatconfig_u1_pascal requires 0 <= r < C(n,k) for the same reason; the Pascal "
+                   "table parameter must satisfy pt[a,b] = C(a,b) (b <= a), 0 above the diagonal, on its whole shape "
+                   "(what build_pascal_table returns); u1u1 sectors require 0 <= ka <= na, 0 <= kb <= nb",
+                   "u1u1 view model: flatconfig[:na] is the same storage with length na; flatconfig[na:] is shift(c,na) with "
+                   "shift(c,off)[j] = c[j+off]; a callee's writes into a view are written through to the base array; "
+                   "products and quotients by the symbolic block size Db = C(nb,kb) are kept abstract inside the code proofs "
+                   "(mul / div / mod with the division theorem x = d*div(x,d) + mod(x,d), 0 <= mod < d for d >= 1, python "
+                   "semantics for a positive divisor) and defined as x*y in the arithmetic lemmas",
+                   "_check_next_coupled_term: sizes_op[ia] in {1,2} and 0 <= regs[ia] < n on the term (TermOK), bi a bit "
+                   "string, the term's entries lie inside the stacked arrays; proved: index arithmetic, all subscripts in "
+                   "bounds, frame of bj; NOT under contract: the value written at the term's registers and hij (bounded "
+                   "drivers + the fdx obligations on build_coupling_numba / _OPMAP row order)",
+                   "not under contract (bounded drivers only): the generic dispatchers rank_to_flatconfig / "
+                   "flatconfig_to_rank / build_coo_numba_core / matvec_numba, the build_coo_* / matvec_* drivers, "
+                   "flatconfig_coupling_numba, HilbertSpace orderings",
+                   "fdx simplify_single_site_ops: complete over all sequences of 1..3 (thorough: 4) names of _OPMAP; the "
+                   "coefficient (the function is linear in it) is represented by 1.0 and 0.75-0.5j; comparison atol 1e-12 "
+                   "(all entries are dyadic rationals, exact in binary floating point)",
+                   "fdx jordan_wigner_transform: all single- and two-operator terms over the 13 names on 4 registers, "
+                   "identity labelling and one permuted string labelling, plus the empty term"],
+      BOUNDED_FOR={"flatconfig_to_rank_nosymm": ["HilbertSpace (no symmetry)"],
+                   "rank_into_flatconfig_nosymm": ["HilbertSpace (no symmetry)"],
+                   "rank_to_flatconfig_nosymm": ["HilbertSpace (no symmetry)"],
+                   "calculate_strides": ["mixed-radix HilbertSpace"],
+                   "flatconfig_to_rank_mixed_radix_nosymm": ["mixed-radix HilbertSpace"],
+                   "rank_into_flatconfig_mixed_radix_nosymm": ["mixed-radix HilbertSpace"],
+                   "rank_to_flatconfig_mixed_radix_nosymm": ["mixed-radix HilbertSpace"],
+                   "flatconfig_to_rank_z2": ["HilbertSpace Z2"], "rank_into_flatconfig_z2": ["HilbertSpace Z2"],
+                   "rank_to_flatconfig_z2": ["HilbertSpace Z2"],
+                   "build_pascal_table": ["HilbertSpace U1:", "get_size(sector, symmetry)"],
+                   "flatconfig_to_rank_u1_pascal": ["HilbertSpace U1:"], "rank_into_flatconfig_u1_pascal": ["HilbertSpace U1:"],
+                   "rank_to_flatconfig_u1_pascal": ["HilbertSpace U1:"],
+                   "flatconfig_to_rank_u1u1_pascal": ["HilbertSpace U1U1"],
+                   "rank_into_flatconfig_u1u1_pascal": ["HilbertSpace U1U1"],
+                   "rank_to_flatconfig_u1u1_pascal": ["HilbertSpace U1U1"],
+                   "_check_next_coupled_term": ["config_coupling / flatconfig_coupling", "build_sparse_matrix(stype)"],
+                   "simplify_single_site_ops": ["processed term list (H.terms)", "build_dense == sum of Kronecker products"],
+                   "get_pauli_decomp": ["processed term list (H.terms)"],
+                   "jordan_wigner_transform": ["processed term list (H.terms)"]},
+      EXPLANATION="E1: 18 njit kernels of operator/configcore.py proved against recurrence specs for ALL sizes: binary "
+                  "(no symmetry), Z2, U1 (Pascal table), U1xU1 (div/mod composition over array views) and mixed-radix "
+                  "rank / unrank kernels, their allocating wrappers, build_pascal_table (pt[n,k] = C(n,k), 0 above the "
+                  "diagonal), calculate_strides, and the index arithmetic + frame of _check_next_coupled_term; all "
+                  "subscripts in bounds, no division by zero, shift / or encodings exact, no int64 overflow in the binary "
+                  "kernels for n <= 62.  Lemmas (base / step pairs, z3): each rank / unrank pair is mutually inverse "
+                  "between [0,size) and the sector's configurations, with size 2^n, 2^(n-1), C(n,k), C(na,ka)*C(nb,kb), "
+                  "prod sizes.  fdx (complete finite domains, real functions executed): _OPMAP rows = get_mat = textbook "
+                  "matrices, two-entry rows list input 0 then 1 as _check_next_coupled_term needs (also on the flat arrays "
+                  "emitted by build_coupling_numba), get_pauli_decomp sums to the operator for every name and both use_zx, "
+                  "jordan_wigner_transform prepends exactly one z per lower register before every ladder operator, "
+                  "simplify_single_site_ops preserves the product for every sequence of <= 3 (thorough 4) names -- the "
+                  "last FAILS on the unchanged tree for length >= 2 (inverted coefficient ratio, DESIGN finding 14).")
+
+
+entry("C03", modules=["contracts.c03_frame"],
+      PROVIDERS=["contracts.c03_frame.provider_frame", "contracts.c03_frame.provider_alias"],
+      TRUSTED=["E4 leaf summaries (declared, joined with the derived ones; their consistency is an obligation "
+               "`::leaf-summary-consistent`): modify, _set_data, add_tensor, pop_tensor, _link_*/_unlink_*, add_tag, "
+               "drop_tags, retag_, reindex_, set_params, apply_to_arrays, add, delete, __setitem__/__delitem__, "
+               "multiply_, in-place dunder operators modify their receiver; any unresolved method whose name ends in "
+               "one underscore modifies its receiver",
+               "E4 leaf: copy()/deepcopy() return an object through which the receiver cannot be observed to change "
+               "(network copies share the immutable data arrays only); select*/_select_tids/tensors return VIEWS "
+               "holding the receiver's own tensor objects unless virtual=False",
+               "E4 declared typing facts: the attributes exponent, inds, shape, dtype, *_ind_id, *_tag_id, L/Lx/Ly/Lz, "
+               "nsites, num_tensors hold immutable values; Tensor._owners (weak back-references) and attributes "
+               "initialised lazily under an `is None` / hasattr test are not observable state",
+               "E4 O3: functools.partialmethod / inspect report the function objects the live classes resolve to"],
+      ASSUMPTIONS=["E4 is an AST-level may-analysis: callee names on receiver-derived values are resolved through "
+                   "the class hierarchy of the enclosing class (MRO + every subclass override) or, for values of "
+                   "unknown class, by name over the Tensor/TensorNetwork families; callees that cannot be resolved "
+                   "(callbacks, external libraries) are ASSUMED pure and listed in the detail of the obligation and "
+                   "in `inplace-census`",
+                   "option dictionaries passed as **opts carry a flag (inplace=...) only if the function itself "
+                   "stores one in them; a flag forwarded through a function's own **kwargs is tracked",
+                   "aliases of the receiver created by storing it into fields of OTHER pre-existing objects are not "
+                   "tracked (stores into objects constructed in the function, containers and views are)",
+                   "arrays are immutable values (no in-place numpy writes): checked by the bounded C03 drivers with "
+                   "read-only arrays, not by E4"],
+      EXPLANATION="E4 frame analysis over the ast of every function with an `inplace` parameter under quimb/tensor "
+                  "(216, of which 167 in the five anchored files): abstract values OTHER / SAFE{flag} / ORIG with "
+                  "part-depths, path facts on the flag (`if inplace:`, early returns, `inplace or x is not None`), "
+                  "effect + return-value summaries derived for ~1200 (function, parameter) pairs by fixpoint over the "
+                  "call graph and checked at ~3000 call sites; obligation per function: no write to a value that may "
+                  "be the original receiver when the flag is false (O1 idiom/delegation dominance, O2 no write to the "
+                  "original name or its parts after the idiom, O4 call sites vs callee summaries). O3: 154 `name_` "
+                  "aliases checked by reflection against the function the same class resolves `name` to.")
+
+
+entry("C17", modules=["contracts.c17_select"],
+      E1=["quimb/linalg/numpy_linalg.py::sort_inds", "quimb/linalg/numpy_linalg.py::eigs_numpy"],
+      TRUSTED=["numpy applies the key lambdas element-wise; np.argsort / np.sort return a stable ascending permutation",
+               "nla.eigh / scipy eigh return all eigenpairs, eigenvector i in column i (leaf: residuals are checked by the "
+               "bounded drivers)"],
+      ASSUMPTIONS=["sort_inds: keys must be defined: SM on non-zero entries, T* entries not exactly on the target sigma",
+                   "eigs_numpy: Hermitian problem (real eigenvalues), dense operator, no metric B; kinds return_vecs, sort, "
+                   "P in {None, given}; a complex key is only accepted for a real spectrum",
+                   "solver accuracy, residuals, orthonormality, other backends: bounded stand-in only"],
+      EXPLANATION="E1 (nonlinear real arithmetic): for each of the 11 selection rules the sort key is strictly monotone in "
+                  "the documented order for all (complex) spectrum entries; eigs_numpy returns exactly min(k,n) entries, "
+                  "the k best by the rule, each value paired with its own vector (same re-indexing), ascending if sort, "
+                  "vectors mapped out of the subspace iff P is given.")
